@@ -537,3 +537,12 @@ proptest! {
         crate::copyset::check_set::<Set64<u8>>(&slice);
     }
 }
+
+#[cfg(droundy_tinyset_verif)]
+impl<T: Fits64> Set64<T> {
+    /// The underlying untyped set, for external verification tooling
+    /// (`--cfg droundy_tinyset_verif` only).
+    pub fn verif_inner(&self) -> &crate::setu64::SetU64 {
+        &self.0
+    }
+}
